@@ -24,7 +24,7 @@ pub fn replay(prop: &str, line: &str, em: &mut Emitter) {
         "msg_wr" | "msg_rd" | "msg_rt" => c18::run_case(&toks, em),
         op if op.starts_with("per_") => per::run_case(&toks, em),
         "gsess" => gsess::run_case(&toks, em),
-        "decomp" => c08::run_case(&toks, em),
+        "decomp" | "decomp2" => c08::run_case(&toks, em),
         "cssp" => c01::run_case(&toks, em),
         "conn" | "tlsgate" | "nlagate" => conn::run_case(&toks, em),
         "gui" => c20::run_case(&toks, em),
